@@ -388,6 +388,24 @@ def run_check(prop, tier, seed, runs=None, workers=None, wall_cap=None, write_ev
             exit_code = 1
             handled_unknown += 1
             if handled_unknown >= 1: break
+    # every listed known finding has a pinned witness case under findings/: it is re-executed on each run, so the finding is
+    # named even when the seeded batch happens not to meet it; a witness that no longer fails is noted (and changes nothing)
+    for ent in load_known():
+        if ent.get('property') != prop or ent.get('status') != 'known' or not ent.get('witness'): continue
+        if any(f"[key={ent['key']};" in l for l in known_lines): continue
+        wpath = os.path.join(VERIF, ent['witness'])
+        try:
+            with open(wpath) as f: wcase = json.load(f)['case']
+            wres = execute_guarded(mod, wcase)
+            wkinds = [v['kind'] for v in wres.violations if hasattr(mod, 'finding_key') and mod.finding_key(wcase, wres, v['kind']) == ent['key']]
+        except HarnessError as e:
+            print(f"# note: the witness {ent['witness']} of known finding {ent['key']} could not be executed on this tree: {str(e)[:200]}")
+            continue
+        except (OSError, KeyError, ValueError) as e:
+            harness_errors.append(f"witness {ent['witness']} of known finding {ent['key']} could not be executed: {type(e).__name__}: {e}")
+            continue
+        if wkinds: known_lines.append(f"KNOWN-FINDING: property={prop} {ent['what']} [key={ent['key']}; witness {ent['witness']}, kind {wkinds[0]}; not met by this batch]")
+        else: print(f"# note: the witness {ent['witness']} of known finding {ent['key']} no longer shows it on this tree (repaired? then the entry should become 'fixed')")
     for l in known_lines: print(l)
 
     wall = time.monotonic() - t0
